@@ -184,7 +184,7 @@ func (g *G) datetime() *N {
 
 func (g *G) anyStep() *N {
 	type b struct{ f, l int64 }
-	opts := []b{{0, -1}, {1, 1}, {0, 1}, {1, -1}, {2, 2}, {-1, -1}, {1, 2}, {0, 0}, {2, -1}}
+	opts := []b{{0, -1}, {1, 1}, {0, 1}, {1, -1}, {2, 2}, {-1, -1}, {1, 2}, {0, 0}, {2, -1}, {2, 1}, {3, 0}, {1, 0}}
 	o := opts[g.R.IntN(len(opts))]
 	return &N{K: KAny, First: o.f, Last: o.l}
 }
